@@ -176,12 +176,15 @@ def fitConvertData (defaultDouble : Bool) (h : Heap κ) (o : Obj) : Except PyErr
 
 end prims
 
+/-- writing a list of rows into an element type: row by row -/
+def castRows {ρ : Type} (castRow : DType → ρ → ρ) : DType → List ρ → List ρ := fun dt rows => rows.map (castRow dt)
+
 /-- the data preamble of `fit` from the caller's OBJECT on: conversion to `train_samples` (a storage of its own), then
 `Batching.prepare` on the rows of that storage. Returns the heap, the identity of `train_samples` and what `prepare` derived. -/
 def fitPrepareArg {ρ : Type} (castRow : DType → ρ → ρ) (defaultDouble : Bool) (h : Heap (List ρ)) (o : Obj)
     (bases : Option (List (List String))) (posB : Nat) (negB : Option Nat) :
     Except PyErr (Heap (List ρ) × TRef × Batching.Prep ρ) := do
-  let (h1, t) ← fitConvertData (fun dt rows => rows.map (castRow dt)) defaultDouble h o
+  let (h1, t) ← fitConvertData (castRows castRow) defaultDouble h o
   match h1.read t.sid with
   | none => .error .RuntimeError
   | some rows =>
